@@ -36,6 +36,8 @@ Theorem C01_mem32 : forall c, In c sweep_mem32 -> ok013 c = true.
 Proof. apply forallb_forall. exact sweep_mem32_ok. Qed.
 Theorem C01_imul_imm : forall c, In c sweep_imul -> ok013 c = true.
 Proof. apply forallb_forall. exact sweep_imul_ok. Qed.
+Theorem C01_shift_not_stackmem : forall c, In c sweep_shift -> ok013 c = true.
+Proof. apply forallb_forall. exact sweep_shift_ok. Qed.
 Theorem C01_port : forall c, In c sweep_port -> ok01 c = true.
 Proof. apply forallb_forall. exact sweep_port_ok. Qed.
 Print Assumptions C01_port.
